@@ -155,6 +155,11 @@ func vfGSParams(name string) GossipSubParams {
 	case "d2og":
 		p.D, p.Dlo, p.Dhi, p.Dscore, p.Dout = 2, 1, 3, 1, 0
 		p.OpportunisticGraftTicks = 1
+	case "d4og":
+		// over-subscription cut and opportunistic grafting in the same heartbeat, Dscore well below D
+		p.D, p.Dlo, p.Dhi, p.Dscore, p.Dout = 4, 2, 5, 1, 0
+		p.OpportunisticGraftTicks = 1
+		p.OpportunisticGraftPeers = 2
 	case "d2og0":
 		// opportunistic grafting "disabled" by a zero period: accepted by validate()
 		p.D, p.Dlo, p.Dhi, p.Dscore, p.Dout = 2, 1, 3, 1, 0
